@@ -141,10 +141,26 @@ func c09Cases(c *drv.Ctx, n int) []detCase {
 	return cases
 }
 
+// c09Sink is a clean grammar with every kind of terminal, for the cold start.
+const c09Sink = `package k
+
+type K Peg {
+	n int
+}
+
+Start   <- Item+ !.
+Item    <- Escape / Quoted / Space / Num / Word / .
+Escape  <- '\\' [nrt\\]
+Quoted  <- '"' (!'"' .)* '"'
+Space   <- [ \t]+ / '\n'
+Num     <- <[0-9]+> { p.n++ } / "0x" [[a-f]]+
+Word    <- [^ \t\n0-9"\\#]+ / &{ p.n > 0 } '#' [^\n]*
+`
+
 // c09Child runs inside the race-enabled driver: sequential repeats, concurrent generations of
 // the same text, concurrent generations of different texts. It reports digests.
-func c09Child(c *drv.Ctx, shard, checks int) (*drv.Stats, *drv.Violation, error) {
-	st := drv.NewStats()
+func c09Child(c *drv.Ctx, shard, checks int) (st *drv.Stats, viol *drv.Violation, err error) {
+	st = drv.NewStats()
 	if null, err := os.OpenFile(os.DevNull, os.O_WRONLY, 0); err == nil {
 		os.Stderr = null // warnings of non-strict generations; race reports go to fd 2 directly
 	}
@@ -165,6 +181,30 @@ func c09Child(c *drv.Ctx, shard, checks int) (*drv.Stats, *drv.Violation, error)
 	{
 		var wg sync.WaitGroup
 		start := make(chan struct{})
+		// next to them, two generations of one text that uses every kind of terminal (a bare
+		// dot alternative, classes, ranges, negated and case-insensitive ones) under -switch:
+		// whatever is derived from the alphabet or the operators and kept for later use is
+		// first asked for by both at once
+		sink := make([][]byte, 2)
+		sinkW := make([]string, 2)
+		for k := range sink {
+			wg.Add(1)
+			go func(k int) {
+				defer wg.Done()
+				<-start
+				sink[k], sinkW[k] = genOnce(c09Sink, variantByName([]string{"v3", "v2"}[k]))
+			}(k)
+		}
+		defer func() {
+			for k, name := range []string{"v3", "v2"} {
+				o, w := genOnce(c09Sink, variantByName(name))
+				st.Eval()
+				st.Class("cold_start_concurrent_generations")
+				if viol == nil && (!bytes.Equal(o, sink[k]) || w != sinkW[k] || len(o) == 0) {
+					viol = &drv.Violation{Property: "C09", Kind: "det-text", What: fmt.Sprintf("[%s] one of the first generations of the process, run concurrently with the other first ones, differs from a later sequential one (or is empty): %s\n--- grammar text ---\n%s", variantByName(name).Flags(), firstDiff(o, sink[k]), c09Sink), Case: detCase{Text: c09Sink, Variant: name, Kind: "codegen"}}
+				}
+			}
+		}()
 		for k := 0; k < nCold; k++ {
 			wg.Add(1)
 			go func(k int) {
